@@ -69,6 +69,11 @@ def reader_texts():
         {"n1": lambda v: v["a"] and v["b"], "n2": lambda v: (v["a"] and v["b"]) or v["c"], "o": lambda v: (v["a"] and v["b"]) == ((v["a"] and v["b"]) or v["c"])}
     yield "several-statements-per-line-and-tabs", "INPUT(a) INPUT(b)\nOUTPUT(o)\tOUTPUT(p)\no\t=\tNAND(a,\tb)  p = NOT(o)\n", ["a", "b"], ["o", "p"], {"o": lambda v: not (v["a"] and v["b"]), "p": lambda v: v["a"] and v["b"]}
     yield "names-with-digits", "INPUT(N1)\nINPUT(N2)\nOUTPUT(N10)\nN7 = AND(N1, N2)\nN10 = NOR(N7, N1)\n", ["N1", "N2"], ["N10"], {"N10": lambda v: not ((v["N1"] and v["N2"]) or v["N1"]), "N7": lambda v: v["N1"] and v["N2"]}
+    yield "blank-between-keyword-and-parenthesis", "INPUT (a)\nINPUT (b)\nOUTPUT (o)\no = AND (a, b)\np = NOT  (o)\nOUTPUT(p)\n", ["a", "b"], ["o", "p"], {"o": lambda v: v["a"] and v["b"], "p": lambda v: not (v["a"] and v["b"])}
+    yield "names-with-a-leading-underscore", "INPUT(_a)\nINPUT(b)\nOUTPUT(_o)\n_n = OR(_a, b)\n_o = AND(_n, _a)\n", ["_a", "b"], ["_o"], {"_n": lambda v: v["_a"] or v["b"], "_o": lambda v: (v["_a"] or v["b"]) and v["_a"]}
+    yield "the-same-net-twice-on-a-parity-gate", "INPUT(a)\nINPUT(b)\nOUTPUT(o)\nOUTPUT(p)\nOUTPUT(r)\no = XOR(a, a)\np = XNOR(a, a)\nr = XOR(a, b, a)\n", ["a", "b"], ["o", "p", "r"], \
+        {"o": lambda v: False, "p": lambda v: True, "r": lambda v: v["b"]}
+    yield "the-same-net-twice-on-an-idempotent-gate", "INPUT(a)\nINPUT(b)\nOUTPUT(o)\nOUTPUT(p)\no = AND(a, a, b)\np = NOR(b, b)\n", ["a", "b"], ["o", "p"], {"o": lambda v: v["a"] and v["b"], "p": lambda v: not v["b"]}
     yield "output-is-input", "INPUT(a)\nINPUT(b)\nOUTPUT(a)\nOUTPUT(g)\ng = AND(a, b)\n", ["a", "b"], ["a", "g"], {"g": lambda v: v["a"] and v["b"], "a": lambda v: v["a"]}
 
 
@@ -168,6 +173,20 @@ def run(chk):
                 else:
                     prob = check_nets(c, ["x"], ["y"], {"y": lambda v, i=i, qp=qp: v["x"] and v[f"{i}.{qp[0]}"], "d": lambda v, i=i, qp=qp: v["x"] != v[f"{i}.{qp[0]}"]})
         chk.ob("C15.R.dff", f"dff::{case}", prob is None, file=FILE, func="bench_to_circuit", line=fr_.node.lineno, fact=prob or {}, expect="a flip-flop blackbox between the D net and the Q net")
+    # a chain of flops, the downstream one listed first (any order of lines), and a blank before the parenthesis
+    for order_name, lines in (("upstream-first", ["q1 = DFF(a)", "q2 = DFF (q1)"]), ("downstream-first", ["q2 = DFF (q1)", "q1 = DFF(a)"])):
+        text = "INPUT(a)\nOUTPUT(q2)\n" + "\n".join(lines) + "\n"
+        r = P.call(FILE, "bench_to_circuit", text, "s")
+        n += 1
+        prob = None
+        if r[0] != "return":
+            prob = {"problem": "reader raises", "result": str(r)[:160]}
+        else:
+            c = r[1]
+            dq = sorted((sorted(c.fanin(f"{i}.{list(bb.inputs())[0]}")), sorted(c.fanout(f"{i}.{list(bb.outputs())[0]}"))) for i, bb in c.blackboxes.items())
+            if dq != [(["a"], ["q1"]), (["q1"], ["q2"])] or c.inputs() != {"a"} or c.outputs() != {"q2"}:
+                prob = {"problem": "flops not chained a -> q1 -> q2", "flops": dq, "inputs": sorted(c.inputs()), "outputs": sorted(c.outputs())}
+        chk.ob("C15.R.dff", f"dff::chain::{order_name}", prob is None, file=FILE, func="bench_to_circuit", line=fr_.node.lineno, fact=prob or {}, expect="two flip-flops, a -> q1 -> q2, whichever line comes first")
     text = "INPUT(x)\nOUTPUT(q)\nOUTPUT(y)\nq = DFF(d)\nd = XOR(x, q)\ny = AND(x, q)\n"
     r = P.call(FILE, "bench_to_circuit", text, "s")
     n += 1
